@@ -172,6 +172,22 @@ Definition is_within (base p : string) : bool :=
 Definition sanitize_archive_path (d t : string) : string :=   (* error ignored by its caller: "" *)
   let v := path_join2 d t in if is_within d v then v else "".
 
+(* strings.TrimRight(s, string(c)): every trailing c *)
+Fixpoint trim_right_char (c : ascii) (s : string) : string :=
+  match s with
+  | EmptyString => EmptyString
+  | String a s' => match trim_right_char c s' with
+                   | EmptyString => if Ascii.eqb a c then EmptyString else String a EmptyString
+                   | r => String a r
+                   end
+  end.
+(* the spelling of a directory's name on its F: line: AddInstalledPackage removes the
+   trailing separators with the function goextract found in the source (TrimRight
+   since fix 8e9dafb: all of them; TrimSuffix before: one) *)
+Definition installed_dir_trim_all : bool := installed_dir_trim_fn =? "strings.TrimRight".
+Definition dir_trim (s : string) : string :=
+  if installed_dir_trim_all then trim_right_char ch_slash s else trim_suffix_char ch_slash s.
+
 (* ---- sort.Strings ------------------------------------------------------------ *)
 Fixpoint sinsert (x : string) (l : list string) : list string :=
   match l with
@@ -427,7 +443,7 @@ Definition perm_line (f : string) (dflt : Z) (h : hdr) : list string :=
   then [sprintf f [AInt (h_uid h); AInt (h_gid h); AInt perm]] else [].
 Definition file_lines (h : hdr) : res (list string) :=
   if h_isdir h then
-    Ok (sprintf (nth_fmt 1) [AStr (trim_suffix_char ch_slash (h_name h))] :: perm_line (nth_fmt 2) installed_dir_default_mode h)
+    Ok (sprintf (nth_fmt 1) [AStr (dir_trim (h_name h))] :: perm_line (nth_fmt 2) installed_dir_default_mode h)
   else
     do z <- (if h_csum h =? "" then Ok []
              else if has_prefix "Q1" (h_csum h) then Ok [sprintf (nth_fmt 5) [AStr (h_csum h)]]
